@@ -47,6 +47,13 @@
         along: the chained dimension name | <pos>:<name> of the stacked dimension
         action ∈ copy|ref|mut|owned|map_mut|map_mut_wi (iteration flavour or in-place map on the view)
         → accesses=<n> inbounds ## tensor <imm|mut> lens=<stored per source> offs=<source>:<offset>,…
+  Probe sources (leaves written in the harness that refuse out-of-shape unchecked accesses):
+    @ piter <rows> <cols> <adaptor|-> <order> <flavour> via=plain|with_index|from_with_index
+        every iterator constructor of matrices/iterators.rs (`from`, `from_numeric`, `with_index`,
+        `WithIndex::from`) over a probe matrix (zero sizes allowed), bare or behind
+        range:<rs>.<rl>.<cs>.<cl> / reverse:<r|c|rc>
+    @ pten <shape> <adaptor|-> <flavour> via=…   the same for tensors/indexing.rs over a probe tensor
+        → as for `log` with leaf kind `probe`
   Matrix cases (each a case of its own):
     @ mlog <rows> <cols> <order> <flavour>   order ∈ row_major|column_major|row:<r>|column:<c>|diagonal
         → as for `log` (`rejected`: the iterator constructor panics)
@@ -173,6 +180,7 @@ def showAccesses (kind : String) (mutable : Bool) (len : Nat) (r : Outcome (List
 
 def flavourMutable : String → Option Bool
   | "copy" => some false | "ref" => some false | "mut" => some true | "owned" => some true
+  | "owned_numeric" => some true   -- `from_numeric`: the same iterator with `T::zero()` placeholders
   | _ => none
 
 def parseOrder (s : String) : Option MOrder :=
@@ -410,6 +418,34 @@ def step (s : State) (toks : List String) : State × String :=
             | some (i, o) => s!"{i}:{o}"
             | none => "UB"
           (⟨none, none⟩, s!"accesses={accs.length} {if inb then "inbounds" else "OUT-OF-BOUNDS"} ## tensor {if m then "mut" else "imm"} lens={showNats lensL} offs={if offs.isEmpty then "-" else ",".intercalate offs}")
+    | _, _ => (⟨none, none⟩, "bad-op")
+  | "@" :: "piter" :: r :: c :: ad :: order :: fl :: _ =>
+    -- every iterator constructor over a probe matrix (zero sizes allowed), bare or behind one adaptor
+    match r.toNat?, c.toNat?, parseOrder order, flavourMutable fl with
+    | some r, some c, some order, some m =>
+      let leaf := Iter.MSource.ofMatrix r c
+      let src? : Option (Iter.MSource Nat) := if ad = "-" then some leaf else Driver.C09.applyMatrixAdaptor leaf ad
+      match src? with
+      | none => (⟨none, none⟩, "bad-op")
+      | some src =>
+        match matrixAccesses src order (orderTotal src.rows src.columns order + 1) with
+        | .panic _ => (⟨none, none⟩, "rejected")
+        | res => (⟨none, none⟩, showAccesses "probe" m (r * c) res)
+    | _, _, _, _ => (⟨none, none⟩, "bad-op")
+  | "@" :: "pten" :: sh :: ad :: fl :: _ =>
+    match parseShape sh, flavourMutable fl with
+    | some shape, some m =>
+      match Tensor.tryFrom shape (List.range (elements shape)) with
+      | none => (⟨none, none⟩, "rejected")
+      | some t =>
+        let names := shape.map (·.1)
+        let src? : Option (Iter.TSource Nat) :=
+          if ad = "-" then some (tensorSource t)
+          else (Driver.C09.applyTensorAdaptorT t ad).map (·.2)
+        match src? with
+        | none => (⟨none, none⟩, "rejected")
+        | some src =>
+          (⟨none, none⟩, showAccesses "probe" m t.data.length (tensorAccesses src (prod src.shape + 1)))
     | _, _ => (⟨none, none⟩, "bad-op")
   | ["@", "pnew", sz] =>
     -- the same matrix with an element type whose `Clone` can be made to panic
